@@ -549,6 +549,8 @@ def coerce(v, ty):
         if isinstance(v, VOpt):
             if v.inner == ty[1]:
                 return v
+            if sort_of(('opt', v.inner)) == s:
+                return VOpt(ty[1], v.t)          # same representation (e.g. enum vs int inside the option)
             raise Unsupported('opt coercion %s -> %s' % (v.ty, ty))
         inner = coerce(v, ty[1])
         return VOpt(ty[1], s.constructor(1)(to_term(inner)))
